@@ -41,10 +41,14 @@ func init() {
 			"'matrix' = every entry point under drawn option combinations (SNP sub-options, expected digest, base policy x overwrite, VMSA/RAM selectors, testonly_force_gcs, endorsement from options / certificate table / bucket / bucket after an unparseable table entry, failing bucket, cancelled contexts, " +
 			"verification times in non-UTC zones, CLI roots from file / download / failing or garbage download / missing or empty file, attestation containers raw/hex/base64/proto, parent-command flags); cells there are (family, entry point, option values, operator|roots|time, outcome). " +
 			"Two more (round4.go), same rule: 'multi' = one command-line run given several things (verify with 2-4 endorsement PATHs, authentic and not in every order, the same PATH twice, the root flag at any position; sev/tdx validate with further positional arguments), each PATH also alone as reference; " +
-			"'live' = the verification time left unset (= the time of the call): per case a signer certificate that runs out and one that starts at a whole second a few seconds ahead, validators and option values made (and partly used) before it and used again after it; a call is judged only if it lay wholly >= 1 s on one side of that second",
+			"'live' = the verification time left unset (= the time of the call): per case a signer certificate that runs out and one that starts at a whole second a few seconds ahead, validators and option values made (and partly used) before it and used again after it; a call is judged only if it lay wholly >= 1 s on one side of that second. " +
+			"Three more (round5.go), same rule: 'cert' = the contents of the embedded signer certificate drawn (private critical / non-critical extensions, extended key usages, CA flag, no key usage) x issuer (caller's root, foreign root, self-signed, intermediate) x validity (current, run out, not begun) x roots x time, correctly signed with the certificate's key, through every entry point; " +
+			"'content' = the contents of the unauthenticated payload drawn (timestamp on either side of the release-process change, provenance fields, technology sections) x authentication state (genuine, re-signed foreign / self-signed, garbage signature, no signature and certificate, edited after signing), through every entry point; " +
+			"'sources' = one SevValidate / sev validate / validator-closure call whose endorsement sources DIFFER (bucket answering successive requests differently, table entry vs bucket, explicit endorsement vs table, testonly_force_gcs), with an attestation that only the forged source's contents admit in half of the cases",
 		Assumptions: []string{"oracle is one-directional (accept => authentic) and is the weakest reading of C01: any PSS salt length, root expiry not required, no CA/key-usage constraints",
 			"a zero verification time means the time of the call (crypto/x509 substitutes the wall clock); it is used only in the 'live' family, the only place where real time passes and where the wall clock is read: verdicts there are taken only with a margin of one whole second on the call's side of the certificate boundary and with wall and monotonic clock in agreement, other calls are counted as not judged",
 			"a successful run of `verify PATH PATH...` has accepted every endorsement it names (the PATHs are what is to be verified, not alternative sources of one endorsement)", "TdxValidate is always given the endorsement in its options (nil would start real HTTPS retries)",
+			"family 'sources': acceptance is allowed iff some source of the call is authentic AND the same entry point with the same attestation and options accepts that source when it is the only endorsement, given explicitly (otherwise the acceptance rests on a non-authentic source, i.e. that one was accepted)",
 			"RSA keys are generated per run (Go's RSA keygen is not seedable); verdicts do not depend on key values"},
 		ShardsQuick: 8, ShardsThor: 16, TimeoutS: 600, TimeoutThor: 3000, Run: run,
 	})
@@ -678,7 +682,10 @@ func run(c *core.Ctx) {
 	next := w.runAudit(c, base+len(seqs))
 	// fourth-round families (round4.go): several endorsements named in one command-line run, and an unset
 	// verification time ("the time of the call") with values kept across a certificate's validity boundary.
-	w.runRound4(c, next)
+	next = w.runRound4(c, next)
+	// fifth-round families (round5.go): drawn contents of the signer certificate, drawn contents of the
+	// unauthenticated payload, and calls whose several endorsement sources differ.
+	w.runRound5(c, next)
 	for _, en := range ents {
 		c.Count("genuine-accepts/"+en.name, genuineAccept[en.name])
 		c.Count("nonauthentic-rejects/"+en.name, forgedReject[en.name])
